@@ -18,12 +18,15 @@ PROPS = {
                 "around wal_checkpoint, between migration steps), optionally a second child dies while re-opening; the parent reopens the file: open "
                 "succeeds, integrity_check ok, WAL+synchronous=FULL, counters consistent, every acknowledged effect present exactly once with identical "
                 "fields, the in-flight op per goroutine applied atomically or not at all, no foreign id, every surviving message offered again; "
-                "non-trivial = the label was actually hit, >=1 op acknowledged before and >=1 in flight at the kill; distinct by hash of (scripts,label,n)",
+                "non-trivial = the label was actually hit, >=1 op acknowledged before and >=1 in flight at the kill; distinct by hash of (scripts,label,n); one case in four starts from a database file an older build left "
+                "behind (schema version 1-5 with one accepted message: the child's start is the upgrade) and every case ends with one more restart on the same file (the queue opens again and holds the same messages) "
+                "|| admission tier: the store tier's op sequences on full and nearly full queues under both drop policies, judged for C01's clause alone: an enqueue that returned success has stored its message",
         "level": "fault_enumeration",
         "assumptions": [SAMPLED, "SIGKILL keeps the OS page cache: power-loss durability (fsync ordering) is not decided; the PRAGMA assertion only pins the configuration",
                         "trusted: SQLite's WAL recovery", POSTGRES],
         "guards": ["acked-before-crash", "inflight-applied", "inflight-not-applied", "crash-while-opening"],
-        "parts": [{"engine": "qmodel", "test": "TestProp_C01_StoreCrash", "quick": 500, "thorough": 30000, "shards": {"quick": 8}}],
+        "parts": [{"engine": "qmodel", "test": "TestProp_C01_StoreCrash", "quick": 500, "thorough": 30000, "shards": {"quick": 8}},
+                  {"engine": "qmodel", "test": "TestProp_C01_Admission", "quick": 3000, "thorough": 200000}],
     },
     "C02": {
         "rule": "rapid-generated op sequences (1-40 ops over every Store method incl. batch/by-filter forms, clock steps on a 10ms lattice, "
